@@ -9,8 +9,11 @@
                 a dataclass position is serialized by `<Alias>___mashumaro_to_dict__(value)`,
                 i.e. the STATIC call of the annotated class's packer on whatever arrives
                 (pack.py pack_dataclass, non-nailed branch).
-   Everything else (containers, Optional, union skeleton, field loop, alias keys) is shared
-   by both paths, as in /repo (same registries).  Self-contained: stdlib only. *)
+   Everything else (containers, Optional, union skeleton, field loop, alias keys, omit_none) is shared
+   by both paths, as in /repo (same registries).  Options (serialize_by_alias, omit_none) are resolved through two
+   dialect layers - the call-time dialect and the builder's default dialect - around the class Config
+   (get_dialect_or_config_option); the format entry points (C15Format.v) instantiate the layers with the format's
+   built-in dialect and Dialect.merge (kernel K2).  Self-contained: stdlib only. *)
 From Coq Require Import List String Ascii ZArith Bool Lia.
 Import ListNotations.
 Open Scope string_scope.
